@@ -235,11 +235,64 @@ def wait_pool(e4, srv, n, timeout=12.0):
     return srv.worker_pids()
 
 
+def failed_upgrade(run, e4, sc):
+    """A binary upgrade whose new master gives up (its workers cannot load the application: it exits with the boot-failure
+    status).  That is not a boot failure of one of THIS master's workers: the pool stays as it is and the master runs on."""
+    v = []
+    info = {}
+    app_source = e4.APP_SOURCE.replace(
+        "import os, sys, time, signal, json\n",
+        "import os, sys, time, signal, json\n"
+        "if os.environ.get('GUNICORN_PID'):\n"
+        "    raise RuntimeError('scripted failure while loading the application in the new release')\n", 1)
+    srv = e4.Server("c03", worker_class=sc["class"], workers=sc["workers"], settings={"graceful_timeout": 2, "timeout": 5}, app_source=app_source)
+    try:
+        srv.start()
+        w0 = srv.wait_workers(sc["workers"], 25)
+        if not w0:
+            return v, "server did not boot: %s" % srv.stderr()[-300:], info
+        master = srv.master_pid
+        srv.signal(signal.SIGUSR2)
+        t0 = time.monotonic()
+        seen_new = False
+        while time.monotonic() - t0 < 25:
+            if not e4.alive(master):
+                break
+            extra = [p for p in srv.children_of(master) if p not in w0]
+            seen_new = seen_new or bool(extra)
+            if seen_new and not extra:
+                break
+            time.sleep(0.1)
+        if not seen_new:
+            return v, "no new master appeared after USR2", info
+        time.sleep(1.0)
+        run.count("live_failed_upgrade_checks")
+        if not e4.alive(master):
+            st = srv.wait_exit(master, 2)
+            v.append(("master-stopped-by-failed-upgrade", "the new master of a binary upgrade gave up with the boot-failure status; the old "
+                      "master exited too (status %r): %s" % (st and st[0] is not None and st[0] >> 8,
+                                                             [ln for ln in srv.error_log().splitlines() if "rror" in ln][-2:])))
+            return v, None, info
+        w = wait_pool(e4, srv, sc["workers"], timeout=8)
+        if sorted(w) != sorted(w0):
+            v.append(("pool-disturbed-by-failed-upgrade", "workers %s before the failed upgrade, %s after" % (w0, w)))
+        r = e4.request(srv.addr, "/pid", timeout=5)
+        if r["outcome"] != "ok":
+            v.append(("pool-not-serving", r["outcome"]))
+        srv.signal(signal.SIGTERM)
+        srv.wait_exit(master, 10)
+        return v, None, info
+    finally:
+        srv.cleanup()
+
+
 def scenario(run, e4, sc):
     v = []
     info = {}
     kind = sc["kind"]
     wc = sc["class"]
+    if kind == "failed_upgrade":
+        return failed_upgrade(run, e4, sc)
     if kind == "bootfail_hook":
         return hook_bootfail(run, e4, sc)
     if kind == "early_death":
@@ -373,7 +426,7 @@ def scenario(run, e4, sc):
 
 
 def plan(run, tier, seed):
-    run.require("live_bystander_checks", "live_pool_checks", "live_boot_failure_exit_status_checks", "live_hook_boot_failure_checks",
+    run.require("live_failed_upgrade_checks", "live_bystander_checks", "live_pool_checks", "live_boot_failure_exit_status_checks", "live_hook_boot_failure_checks",
                 "live_late_boot_failure_checks", "live_reaped_before_recorded", "live_stale_entry_dropped")
     classes = ["sync", "gthread", "gevent", "eventlet"]
     hs = [
@@ -395,6 +448,7 @@ def plan(run, tier, seed):
         out.append(dict(h, kind="history", **{"class": classes[(i + seed) % 4]}))
     for i, h in enumerate(fast):
         out.append(dict(h, kind="history", **{"class": classes[(i + seed) % 4]}))
+    out.append({"kind": "failed_upgrade", "workers": 2, "class": classes[(seed + 2) % 3]})
     out.append({"kind": "upgraded", "workers": 2, "steps": [["kill", 1], ["sleep", 0.5], ["ttin"], ["kill", 2]], "class": classes[(seed + 1) % 3]})
     out.append({"kind": "bootfail3", "workers": 1, "class": "sync"})
     out.append({"kind": "bootfail4", "workers": 1, "class": classes[seed % 4]})
